@@ -79,7 +79,7 @@ CONS = [  # (name, coefficients by station index)
 FEEDERS = [("feeder_A", (1, 0, 1)), ("feeder_B", (0, 1, 0))]  # two independent feeders (stations 0,2 / station 1)
 
 
-def _run(cx, sc, stations, station_of, battery, sched, n_cons, st_perm, c_perm, s_perm, k, H, via_json=False):
+def _run(cx, sc, stations, station_of, battery, sched, n_cons, st_perm, c_perm, s_perm, k, H, via_json=False, unnamed=False):
     sched = sched.replace("_together", "")
     A = acn()
     net = A.ChargingNetwork()
@@ -89,7 +89,8 @@ def _run(cx, sc, stations, station_of, battery, sched, n_cons, st_perm, c_perm, 
     for ci in c_perm:
         name, coeffs = (FEEDERS if "_unint" in sched else CONS)[ci]
         cur = A.Current({stations[j][0]: coeffs[j] for j in st_perm[::-1] if j < len(coeffs) and coeffs[j] != 0})
-        net.add_constraint(cur, sc["limits"][ci], name=name)
+        # unnamed: the network names constraints by position, so the same names denote other rows in the permuted run
+        net.add_constraint(cur, sc["limits"][ci], name=None if unnamed else name)
     evs = []
     for i in s_perm:
         a, d = sc["times"][i]
@@ -178,15 +179,15 @@ def _run(cx, sc, stations, station_of, battery, sched, n_cons, st_perm, c_perm, 
                 energy={ev.session_id: ev.energy_delivered for ev in evs}, order=ids)
 
 
-def h_pair(cx, stations, station_of, H, battery, sched, n_cons, st_perm, c_perm, s_perm, k, req_lo=0, via_json=False, dshard=None):
+def h_pair(cx, stations, station_of, H, battery, sched, n_cons, st_perm, c_perm, s_perm, k, req_lo=0, via_json=False, dshard=None, unnamed=False):
     env.install(cx)
     if via_json:
         env.install_json(cx)
         cx.tag("json_round_trip_before_run")
     sc = _scenario(cx, stations, station_of, H, battery, n_cons, distinct=("arrivals+departures" if "_unint" in sched else sched.startswith("fcfs")), req_lo=req_lo, est="_est" in sched, together=sched.endswith("_together"), dshard=dshard)
     ident = tuple(range(len(stations)))
-    base = _run(cx, sc, stations, station_of, battery, sched, n_cons, ident, tuple(range(n_cons)), tuple(range(len(station_of))), 0, H)
-    other = _run(cx, sc, stations, station_of, battery, sched, n_cons, st_perm, c_perm, s_perm, k, H, via_json=via_json)
+    base = _run(cx, sc, stations, station_of, battery, sched, n_cons, ident, tuple(range(n_cons)), tuple(range(len(station_of))), 0, H, unnamed=unnamed)
+    other = _run(cx, sc, stations, station_of, battery, sched, n_cons, st_perm, c_perm, s_perm, k, H, via_json=via_json, unnamed=unnamed)
     cx.tag("both_ran")
     cx.observe("n", [base["n"], other["n"]])
     cx.observe("rates", [list(base["rates"][s[0]]) for s in stations])
@@ -215,11 +216,11 @@ def jobs(tier):
     S3f = [("n3", "CC", 208, 0), ("n1", "AV5", 120, 0), ("n2", "CC", 240, 0)]
     js = []
 
-    def add(st, so, H, bat, sched, nc, sp, cp, ssp, k, cost=1, req_lo=0, via_json=False, dshard=None):
+    def add(st, so, H, bat, sched, nc, sp, cp, ssp, k, cost=1, req_lo=0, via_json=False, dshard=None, unnamed=False):
         name = "pair[%s,n=%d,sess=%s,H=%d,%s,cons=%d,stations=%s,constraints=%s,sessions=%s,shift=%d%s%s]" % (
             sched, len(st), "".join(map(str, so)), H, bat, nc, "".join(map(str, sp)), "".join(map(str, cp)), "".join(map(str, ssp)), k, ",json" if via_json else "",
-            ",departures=%s" % "".join(map(str, dshard)) if dshard else "")
-        js.append(Job(name, h_pair, dict(stations=st, station_of=so, H=H, battery=bat, sched=sched, n_cons=nc, st_perm=sp, c_perm=cp, s_perm=ssp, k=k, req_lo=req_lo, via_json=via_json, dshard=dshard), functions=FUNCS + (
+            (",departures=%s" % "".join(map(str, dshard)) if dshard else "") + (",unnamed" if unnamed else ""))
+        js.append(Job(name, h_pair, dict(stations=st, station_of=so, H=H, battery=bat, sched=sched, n_cons=nc, st_perm=sp, c_perm=cp, s_perm=ssp, k=k, req_lo=req_lo, via_json=via_json, dshard=dshard, unnamed=unnamed), functions=FUNCS + (
             ["acnportal.acnsim.base.BaseSimObj.to_json/from_json", "acnportal.acnsim.network.charging_network.ChargingNetwork._to_dict/_from_dict", "acnportal.acnsim.simulator.Simulator._to_dict/_from_dict/update_scheduler"] if via_json else []),
                       expect_tags=("both_ran",), max_paths=100000, timeout=6000,
                       bounds=dict(stations=len(st), sessions=len(so), horizon=H, battery=bat, scheduler=sched, constraints=nc, station_order=list(sp), constraint_order=list(cp),
@@ -235,6 +236,8 @@ def jobs(tier):
         add(S2, (0, 0), 2, "ideal", "scripted", 1, (1, 0), (0,), (1, 0), 1)            # everything + shift
         add(S2f, (0, 1), 2, "huge", "fcfs", 2, (1, 0), (1, 0), (1, 0), 0, cost=3, req_lo=50)
         add(S2f, (0, 1), 2, "huge", "fcfs", 1, (0, 1), (0,), (0, 1), 1, cost=3, req_lo=50)
+        # same stations in the same order, constraints named by position and added in the other order (second simulation in the same process)
+        add(S2f, (0, 1), 2, "huge", "fcfs", 2, (0, 1), (1, 0), (0, 1), 0, cost=3, req_lo=50, unnamed=True)
         add(S2, (0, 1), 3, "ideal", "uncontrolled", 1, (1, 0), (0,), (1, 0), 1)
         Sc = [("PS-B", "EVSE", 208, 0), ("PS-A", "EVSE", 240, 0)]
         add(Sc, (0, 1), 3, "huge", "scripted_mr2", 1, (1, 0), (0,), (1, 0), 1)        # open-loop scheduler, shift
@@ -255,6 +258,8 @@ def jobs(tier):
             add(S3, (0, 1, 2), 3, "ideal", "scripted", 3, sp, (0, 1, 2), (0, 1, 2), 0)
             add(S3f, (0, 1, 2), 3, "ideal", "fcfs", 3, sp, (2, 0, 1), (0, 1, 2), 0, cost=3)
         for cp in itertools.permutations(range(3)):
+            if cp != (0, 1, 2):
+                add(S3f, (0, 1, 2), 3, "huge", "fcfs", 3, (0, 1, 2), cp, (0, 1, 2), 0, cost=3, req_lo=50, unnamed=True)
             add(S3, (0, 1, 1), 3, "stepwise", "scripted", 3, (0, 1, 2), cp, (0, 1, 2), 0)
             add(S3f, (0, 1, 1), 3, "ideal", "fcfs", 3, (2, 1, 0), cp, (2, 0, 1), 0, cost=3)
         for ssp in itertools.permutations(range(3)):
